@@ -25,14 +25,14 @@ def queries(tier):
 
     def add(mode, ncls, checked, mask, prior, attempts, sat=None, timeout=1800, indirect=0, proj=0):
         hc = 16 if ncls <= 1 else 32 if ncls <= 3 else 64
-        nm = ('lookup_unregistered' if mode == 2 else 'publish') + '_%s%s%s_n%d_ids%d_prior%d_a%d' % ('checked' if checked else 'fast', '_indirect' if indirect else '', '_projection' if proj else '', ncls, mask, prior, attempts)
+        nm = ('lookup_unregistered' if mode == 2 else 'lookup_formerly_registered' if mode == 3 else 'publish') + '_%s%s%s_n%d_ids%d_prior%d_a%d' % ('checked' if checked else 'fast', '_indirect' if indirect else '', '_projection' if proj else '', ncls, mask, prior, attempts)
         qs.append(Query(nm, 'c05_hash.cpp',
                         {'MODE': mode, 'NCLS': ncls, 'CHECKED': checked, 'NIDS_MASK': mask, 'PRIOR': prior, 'HASHCAP': hc,
                          'YOMM2_VERIF_HASH_ATTEMPTS': attempts, 'INDIRECT': indirect, 'PROJ': proj},
                         unwind=hc + 2, models=True, env=True, uf_mul=True, precise_defines={'IDBITS': 10}, precise_sat='cadical', checks='none', sat=sat, timeout=timeout,
-                        covers=(902,) if mode == 2 else ((999, 901, 903) if ncls >= 2 else (999, 901) if ncls == 1 else (999,)),
+                        covers=(902,) if mode in (2, 3) else ((999, 901, 903) if ncls >= 2 else (999, 901) if ncls == 1 else (999,)),
                         desc=('checked_perfect_hash::hash_type_id on an arbitrary unregistered id: unknown_class_error carrying that id, then abort'
-                              if mode == 2 else
+                              if mode == 2 else 'two real updates, the second without one class: its id must be reported unknown afterwards' if mode == 3 else
                               'publish_vptrs + hash_initialize: on normal return the installed hash is in range, collision-free and every '
                               'slot holds its class v-table (control holds its id); an abort is a reported hash_search_error'),
                         symbolic='id values (64-bit), search multipliers, prior hash_mult/shift/min/max/length'
@@ -43,11 +43,14 @@ def queries(tier):
     add(1, 1, 1, 1, 1, 2)
     add(1, 2, 0, 2, 0, 1, sat='cadical')
     add(1, 2, 1, 3, 1, 1, sat='cadical')
-    add(2, 2, 1, 1, 1, 1, sat='cadical')
+    add(2, 1, 1, 1, 1, 1, sat='cadical')
     add(1, 0, 1, 0, 0, 1)
+    add(3, 1, 1, 0, 0, 1, sat='cadical')
     add(1, 2, 0, 0, 1, 1, sat='cadical', indirect=1)
-    add(1, 2, 1, 3, 0, 1, sat='cadical', proj=1)
+    add(1, 1, 1, 1, 0, 1, sat='cadical', proj=1)
     if tier == 'thorough':
+        add(2, 2, 1, 1, 1, 1, sat='cadical', timeout=2400)
+        add(1, 2, 1, 3, 0, 1, sat='cadical', proj=1, timeout=2400)
         add(1, 2, 1, 2, 1, 2, sat='cadical', timeout=1800)
         add(1, 3, 1, 7, 0, 2, sat='kissat', timeout=2400)
         add(1, 3, 0, 5, 1, 2, sat='kissat', timeout=2400)
